@@ -177,6 +177,32 @@ def r3(ctx) -> None:
         ctx.ob("C04-R3", f"{cls}.get_compartments/order-of-initial-concentration", ok, gc, gc.node,
                "compartment order = order of the initial concentration item, filtered by the K-matrix",
                construct="[c for c in initial_concentration.compartments if c in k_matrix.involved_compartments()]")
+    # several K-matrices of one megacomplex are folded into one: the accumulator must be carried
+    gk = ctx.fn(DM, "DecayMegacomplex.get_k_matrix")
+    loop = next((n for n in lib.nodes(gk, ast.For) if norm(n.iter) == "self.k_matrix"), None)
+    okf = False
+    trace = []
+    if loop is not None and isinstance(loop.target, ast.Name):
+        lv = loop.target.id
+        combs = [c for c in lib.method_calls(loop, "combine")]
+        rets = lib.nodes(gk, ast.Return)
+        if len(combs) == 1 and rets:
+            c = combs[0]
+            st_ = lib.stmt_of(c)
+            acc = norm(st_.targets[0]) if isinstance(st_, ast.Assign) else None
+            okf = acc is not None and norm(c.func.value) == acc and len(c.args) == 1 and norm(c.args[0]) == lv and all(norm(r.value) == acc for r in rets)
+            inits = [s_ for t_, s_ in lib.stores(loop) if norm(t_) == acc and isinstance(s_, ast.Assign) and norm(s_.value) == lv]
+            okf = okf and len(inits) == 1
+            trace = [f"fold: {lib.short(st_, 80)}", f"accumulator: {acc}"]
+    ctx.ob("C04-R3", "DecayMegacomplex.get_k_matrix/fold-carries-accumulator", okf, gk, loop or gk.node,
+           "all K-matrices of the megacomplex are combined: acc = first; acc = acc.combine(next) for each further one (a fold that "
+           "restarts from the first matrix loses every matrix but the first and the last)", trace)
+    cb = ctx.fn(KM, "KMatrix.combine")
+    txt = norm(cb.node)
+    okc = "combined_matrix = {entry: self.matrix[entry] for entry in self.matrix}" in txt and "for entry in k_matrix.matrix" in txt and \
+        "combined_matrix[entry] = k_matrix.matrix[entry]" in txt and "matrix=combined_matrix" in txt
+    ctx.ob("C04-R3", "KMatrix.combine/union-of-entries", okc, cb, cb.node, "the combined K-matrix holds the entries of both (later ones override)",
+           construct="combined = dict(self.matrix); combined.update(other.matrix)")
     rd = ctx.fn(DUT, "retrieve_decay_associated_data")
     flr = lib.flow(rd, repo)
     defs = {d.var: norm(d.value) for v in ("species", "matrix", "matrix_reduced", "rates", "a_matrix", "lifetimes", "das") for d in flr.defs_of(v) if d.kind == "assign"}
